@@ -608,7 +608,10 @@ func ruleCryptRecipe(c *core.Ctx) {
 		fn := c.Prog.Func("pdf", "filterChainStartsWithCrypt")
 		info := fn.Info()
 		// every value that is type-asserted or type-switched must be assigned from Resolve
-		check := func(e ast.Expr, where ast.Node) {
+		positiveOnly := map[ast.Node]bool{}
+		mentionsReference := map[ast.Node]bool{}
+		var check func(e ast.Expr, where ast.Node)
+		check = func(e ast.Expr, where ast.Node) {
 			obj := core.ObjOf(info, e)
 			o.At(fn.Site(where, "inspects "+core.ExprStr(e)))
 			if obj == nil {
@@ -623,10 +626,87 @@ func ruleCryptRecipe(c *core.Ctx) {
 					}
 				}
 			}
+			if !ok && positiveOnly[where] {
+				// an unresolved value is only asked whether it is one of some direct types;
+				// a reference matches none of them and goes on to the resolving path
+				resolvedLater := false
+				for _, call := range core.CallsTo(info, fn.Decl.Body, false, "pdf.Resolve") {
+					if len(call.Args) == 2 && core.ObjOf(info, call.Args[1]) == obj && call.Pos() > where.Pos() {
+						resolvedLater = true
+					}
+				}
+				if resolvedLater {
+					return
+				}
+			}
+			if !ok && mentionsReference[where] {
+				o.Unrec("%s: %s is inspected before it is resolved, with a case for references: not followed", c.Prog.Pos(where.Pos()), core.ExprStr(e))
+				return
+			}
 			if !ok {
 				o.FailAt(fn.Site(where, ""), "%s is inspected without being resolved first (an indirect entry would be misclassified)", core.ExprStr(e))
 			}
 		}
+		// inspections that only pick out direct values: a type switch without default whose
+		// cases are nil or concrete types other than Reference, and "if v, ok := x.(T); ok { ... }"
+		// without else for such a T
+		directType := func(te ast.Expr) bool {
+			if core.IsNil(info, te) {
+				return true
+			}
+			t := info.TypeOf(te)
+			if t == nil || core.IsNamed(t, "pdf", "Reference") {
+				return false
+			}
+			_, isIface := t.Underlying().(*types.Interface)
+			return !isIface
+		}
+		ast.Inspect(fn.Decl.Body, func(m ast.Node) bool {
+			switch x := m.(type) {
+			case *ast.TypeSwitchStmt:
+				pos := true
+				for _, st := range x.Body.List {
+					cc := st.(*ast.CaseClause)
+					if cc.List == nil {
+						pos = false
+					}
+					for _, te := range cc.List {
+						if t := info.TypeOf(te); t != nil && core.IsNamed(t, "pdf", "Reference") {
+							mentionsReference[x] = true
+						}
+						if !directType(te) {
+							pos = false
+						}
+					}
+				}
+				positiveOnly[x] = pos
+			case *ast.IfStmt:
+				as, ok := x.Init.(*ast.AssignStmt)
+				if !ok || len(as.Lhs) != 2 || len(as.Rhs) != 1 || x.Else != nil {
+					return true
+				}
+				ta, ok := ast.Unparen(as.Rhs[0]).(*ast.TypeAssertExpr)
+				if !ok || ta.Type == nil || !directType(ta.Type) {
+					return true
+				}
+				// the condition is "ok" or a conjunction with "ok" as one of its parts
+				var hasOK func(e ast.Expr) bool
+				hasOK = func(e ast.Expr) bool {
+					e = ast.Unparen(e)
+					if cid, isID := e.(*ast.Ident); isID {
+						return info.ObjectOf(cid) != nil && info.ObjectOf(cid) == core.ObjOf(info, as.Lhs[1])
+					}
+					if be, isBin := e.(*ast.BinaryExpr); isBin && be.Op == token.LAND {
+						return hasOK(be.X) || hasOK(be.Y)
+					}
+					return false
+				}
+				if hasOK(x.Cond) {
+					positiveOnly[ta] = true
+				}
+			}
+			return true
+		})
 		n := 0
 		ast.Inspect(fn.Decl.Body, func(m ast.Node) bool {
 			switch x := m.(type) {
